@@ -195,8 +195,22 @@ func genC13(r *Rng, e *Emitter, n int) {
 		if ldx == 0 && ldy == 0 {
 			ldx = 1
 		}
+		// whole numbers of either sign over the whole 32-bit range (differences of 33 bits, products of 66)
+		wide := g == 1<<20 && shape != 4 && r.chance(1, 2)
+		if wide {
+			e.tally("signed-32-bit-range")
+		}
 		for k := 0; k < np; k++ {
 			x, y := r.Intn(g), r.Intn(g)
+			if wide {
+				x, y = int(r.Int63n(1<<32)-1<<31), int(r.Int63n(1<<32)-1<<31)
+				if r.chance(1, 3) { // near the corners and edges of the range
+					x = []int{-1 << 31, 1<<31 - 1, -2000000000, 2000000000}[r.Intn(4)] + r.Intn(3) - 1
+				}
+				if r.chance(1, 3) {
+					y = []int{-1 << 31, 1<<31 - 1, -2000000000, 2000000000}[r.Intn(4)] + r.Intn(3) - 1
+				}
+			}
 			switch shape {
 			case 0: // collinear
 				x, y = lx0+x*ldx, ly0+x*ldy
